@@ -1728,8 +1728,9 @@ class MPO(MPSGeometry):
             raise ValueError('Only finite boundary conditions implemented')
         if self.explicit_plus_hc:
             raise NotImplementedError("Can't use explicit_plus_hc with apply_zipup")
+        Bs = [psi.get_B(i, 'B') for i in range(psi.L)]  # before any singular values are replaced
         for i in range(psi.L):
-            B = npc.tensordot(psi.get_B(i, 'B'), self.get_W(i), axes=('p', 'p*'))
+            B = npc.tensordot(Bs[i], self.get_W(i), axes=('p', 'p*'))
             if i == 0 and bc == 'finite':
                 B = B.take_slice(self.get_IdL(i), 'wL')
                 B = B.combine_legs([['vL', 'p'], ['wR', 'vR']], qconj=[+1, -1])
